@@ -81,7 +81,31 @@ class InjectedStop(StopIteration):
         self.tag = tag
 
 
-FAULT_CLASSES = {c.__name__: c for c in (InjectedFault, InjectedKeyError, InjectedLookupError, InjectedAttributeError, InjectedStop)}
+class InjectedModelComplete(core.ModelCompleteError):
+    """The library's own error type raised INSIDE a run (a system that strictly steps a finished sub-model): an error like any other."""
+
+    def __init__(self, tag=None):
+        super().__init__()
+        self.tag = tag
+
+    def __reduce__(self):
+        return (InjectedModelComplete, (self.tag,))
+
+
+FAULT_CLASSES = {c.__name__: c for c in (InjectedFault, InjectedKeyError, InjectedLookupError, InjectedAttributeError, InjectedStop,
+                                         InjectedModelComplete)}
+
+
+class ExecuteBypassed(AssertionError):
+    pass
+
+
+def _check_driven_through_execute(m, t):
+    """The fixture models override Model.execute() (the documented way to step a model) to count the requested steps; a driver that
+    steps the scheduler behind the model's back leaves the count behind the clock."""
+    if m.ticks < t + 1:
+        raise ExecuteBypassed(f'timestep {t} is running but the model\'s own execute() has only been asked for {m.ticks} steps: '
+                              f'the driver bypassed the model\'s execute() override')
 
 
 def make_fault(fault):
@@ -106,6 +130,7 @@ class _Work(core.System):
         t = m.systems.timestep
         if m.delay:
             _time.sleep(m.delay)
+        _check_driven_through_execute(m, t)
         if m.fault and m.fault.get('kind') == 'step' and m.fault['ordinal'] == m.ordinal and m.fault['t'] == t:
             raise make_fault(m.fault)
         if t == m.stop:
@@ -121,10 +146,15 @@ class _Ident(collectors.Collector):
 
 class VModel(core.Model):
     """Fresh uuid per construction; stamps every record; completes at `stop`; sleeps a little so completion order varies."""
-    __slots__ = ['run_uuid', 'params', 'ordinal', 'fault', 'delay', 'stop']
+    __slots__ = ['run_uuid', 'params', 'ordinal', 'fault', 'delay', 'stop', 'ticks']
+
+    def execute(self, n=1):
+        self.ticks += n
+        super().execute(n)
 
     def __init__(self, ctl, stop, **params):
         super().__init__()
+        self.ticks = 0
         self.run_uuid = _uuid.uuid4().hex
         self.params = dict(params)
         self.stop = stop
@@ -159,15 +189,21 @@ def pkey(params):
 
 class _Stopper(core.System):
     def execute(self):
+        _check_driven_through_execute(self.model, self.model.systems.timestep)
         if self.model.systems.timestep == self.model.stop:
             self.model.complete()
 
 
 class SModel(core.Model):
-    __slots__ = ['params', 'rep', 'stop']
+    __slots__ = ['params', 'rep', 'stop', 'ticks']
+
+    def execute(self, n=1):
+        self.ticks += n
+        super().execute(n)
 
     def __init__(self, stop=0, seed=None, **params):
         super().__init__(seed=seed)
+        self.ticks = 0
         for k in params:                 # like a model with an explicit signature: unknown keywords are an error
             if k not in ('lr', 'size', 'mode_name'):
                 raise TypeError(f"SModel.__init__() got an unexpected keyword argument '{k}'")
